@@ -38,6 +38,7 @@ ASSUMPTIONS = [
     'identity proxies hash to a constant so that dict/set lookups compare them with == (a branch) instead of concretising',
     'replay of identity counterexamples re-runs the real code with a concrete id() following the model (still satisfying the contract); the simplest scenario is additionally reproduced against the real CPython allocator',
     'term family: types a, a=>a, a=>bool, bool; leaves x y (Var and SVar), f, P, c, Bound; depth and counts under bounds',
+    'shared sub-objects: 64 hand-built abstractions in which one Python object with a loose bound variable occurs at 2-3 binder depths',
 ]
 RULE = ('one evaluation = one explored path (identity-equality pattern) of a scripted construction+operation, or one term pair/triple/instantiation in parts 2-3; '
         'distinct = distinct (script, operation, decision trace) or distinct inputs; non-trivial = at least one re-wrapped node or a binder')
@@ -804,6 +805,64 @@ def run_subst(u, out, twin):
         o.counts[k] = 0
 
 
+# ------------------------------------------------------------------ part 4: shared sub-objects at different binder depths
+
+def shared_cases():
+    """Abstractions whose body contains the *same Python object* (a subterm with a loose bound variable) at two binder
+    depths -- legal in the de Bruijn representation, never produced by the parser, and exactly what identity-keyed
+    caches must get right.  -> list of (name, abstraction, argument)"""
+    from kernel.type import TFun, BoolType
+    from kernel.term import Var, Const, Comb, Abs, Bound, Eq
+    f_ = fam()
+    A, AA = f_['A'], f_['AA']
+    f = Var('f', AA)
+    g = Var('g', TFun(A, A, A))
+    h = Var('h', TFun(AA, A, A))
+    c, y = Const('c', A), Var('y', A)
+    out = []
+    for sname, mk in (('f B0', lambda: Comb(f, Bound(0))), ('g B0 B0', lambda: Comb(Comb(g, Bound(0)), Bound(0))), ('g B0 c', lambda: Comb(Comb(g, Bound(0)), c)),
+                      ('f (f B0)', lambda: Comb(f, Comb(f, Bound(0))))):
+        for cname, ctx in (('shallow-first', lambda s: Abs('x', A, Eq(s, Comb(Abs('y', A, s), c)))),
+                           ('deep-first', lambda s: Abs('x', A, Comb(Comb(h, Abs('y', A, s)), s))),
+                           ('two-binders', lambda s: Abs('w', A, Abs('x', A, Eq(s, Comb(Abs('y', A, s), Bound(1)))))),
+                           ('three-uses', lambda s: Abs('x', A, Comb(Comb(g, s), Comb(Abs('y', A, Comb(Comb(g, s), Comb(Abs('z', A, s), Bound(0)))), c))))):
+            for aname, arg in (('c', c), ('f y', Comb(f, y)), ('y', y), ('B0', Bound(0))):
+                sub = mk()                  # one object, used at several depths by ctx
+                out.append(('%s / %s / %s' % (sname, cname, aname), ctx(sub), arg))
+    return out
+
+
+def check_shared(i):
+    """-> (kind or None, detail)"""
+    from kernel.term import Comb
+    name, ab, arg = shared_cases()[i]
+    abe, arge = export(ab), export(arg)
+    for opname, real_fn, ref_fn in (
+            ('subst_bound', lambda: ab.subst_bound(arg), lambda: r_subst_bound(abe[2], arge)),
+            ('beta_conv', lambda: Comb(ab, arg).beta_conv(), lambda: r_subst_bound(abe[2], arge)),
+            ('beta_norm', lambda: Comb(ab, arg).beta_norm(), lambda: r_beta_norm(('@', abe, arge))),
+            ('incr_boundvars', lambda: ab.incr_boundvars(1), lambda: r_incr(abe, 1)),
+            ('abstract_over', lambda: ab.abstract_over(fam_y()), lambda: r_abstract(abe, export(fam_y())))):
+        try:
+            res = export(real_fn())
+        except Exception as e:
+            res = 'EXC:' + type(e).__name__
+        try:
+            ref = ref_fn()
+        except Exception as e:
+            ref = 'EXC'
+        if isinstance(res, str) and ref == 'EXC':
+            continue
+        if res != ref:
+            return 'shared-' + opname, '%s on the term %r (sub-object shared at two binder depths: %s) with argument %r gives %s, reference %s' % (opname, ab, name, arg, res, ref)
+    return None, 'fine'
+
+
+def fam_y():
+    from kernel.term import Var
+    return Var('y', fam()['A'])
+
+
 # ------------------------------------------------------------------ units
 
 def setup(tier, seed):
@@ -826,6 +885,7 @@ def units(tier, seed):
         us.append(('laws', tier, seed, lo, lo + 40))
     for lo in range(0, n, 25):
         us.append(('subst', tier, seed, lo, lo + 25))
+    us.append(('shared', tier, seed))
     random.Random(seed).shuffle(us)
     return us
 
@@ -854,6 +914,16 @@ def run_unit(u):
             out['samples'].append({'construction_script': scr[lo], 'operation': op, 'identities': 'symbolic'})
     elif u[0] == 'laws':
         run_laws(u, out, twin)
+    elif u[0] == 'shared':
+        for i in range(len(shared_cases())):
+            out['evals'] += 1
+            out['keys'].add('shared|%d' % i)
+            if twin:
+                continue
+            kind, detail = check_shared(i)
+            if kind:
+                out['cex'].append({'kind': kind, 'i': i, 'detail': detail})
+        out['samples'].append({'shared_subobject_case': shared_cases()[0][0], 'cases': len(shared_cases())})
     else:
         run_subst(u, out, twin)
     out['keys'] = list(out['keys'])
@@ -878,6 +948,9 @@ def replay(c):
         return replay_identity(c)
     if k.startswith('law-'):
         return replay_law(c)
+    if k.startswith('shared-'):
+        kind, detail = check_shared(c['i'])
+        return kind == k, detail
     terms = closed_family(2)
     kind, detail = check_subst_case(terms[c['i']], subst_cases()[c['case']])
     return kind == k, detail
